@@ -28,7 +28,7 @@ RULE = ("Rebalancing.make_trades on generated (holdings, targets, quotes, thresh
 ASSUMPTIONS = ["ties within 1e-12 relative of the threshold / 1e-9 of an integer lot accept both outcomes",
                "whole-lot mode: the threshold is compared with the weight of the imbalance itself (untruncated), as the property words it"]
 REQUIRED = ["C12:exact-threshold", "C12:trade-set", "C12:trade-wellformed", "C12:fractional-quantity", "C12:whole-lot-truncation", "C12:no-exception"]
-REQUIRED_CATS = ["mode:balanced", "previewed-on-another-state", "via-portfolio-space", "whole-lot-with-fractional-holding", "mode:tiny", "mode:exact-at", "mode:exact-notch-below", "mode:exact-notch-above", "mode:at", "mode:below", "mode:above", "mode:sublot", "mode:absent-held", "whole-lot", "fractional"]
+REQUIRED_CATS = ["quoted-at-zero", "mode:contracts", "mode:balanced", "previewed-on-another-state", "via-portfolio-space", "whole-lot-with-fractional-holding", "mode:tiny", "mode:exact-at", "mode:exact-notch-below", "mode:exact-notch-above", "mode:at", "mode:below", "mode:above", "mode:sublot", "mode:absent-held", "whole-lot", "fractional"]
 REQUIRED_HITS = ["Rebalancing.make_trades"]
 TECHNIQUE = "runtime monitoring: reference model of the stated filtering rule compared with Rebalancing.make_trades on boundary-biased inputs"
 LEVEL_TEXT = ("Exploration with boundary-biased generation: the real make_trades is compared with an independent evaluation of the "
@@ -94,13 +94,17 @@ def case(ctx, i, tier):
         mid = rng.choice([3, 20, 100, 2500])
         sp = rng.choice([0, 0, 1e-3])
         q[c] = (mid * (1 - sp / 2), mid * (1 + sp / 2))
+        if rng.random() < 0.06:
+            # quoted at exactly zero (a calendar spread at par, a worthless option-like contract): still a quote
+            q[c] = (0.0, rng.choice([0.0, 0.0, 0.5]))
+            ctx.cat("quoted-at-zero")
         ex.process_EventNBBO(EventNBBO(t, c, *q[c]))
     b = Broker(ex, deposit=rng.choice([1e4, 1e6, 1e8]), fees=fees)
     frac = rng.random() < 0.5
     measure = rng.choice(["weight", "weight", "nr-contracts"])
     for c in cs:
         if rng.random() < 0.6:
-            unit = b.net_liquidation_value() / (q[c][1] * c.multiplier)
+            unit = b.net_liquidation_value() / (q[c][1] * c.multiplier) if q[c][1] > 0 else rng.uniform(2, 20)
             dq = rng.choice([-1, 1]) * rng.uniform(0.05, 0.5) * unit
             if not frac:
                 if rng.random() < 0.25 and 3 * q[c][1] * c.multiplier < 0.3 * b.net_liquidation_value():
@@ -126,10 +130,16 @@ def case(ctx, i, tier):
             continue
         h = hold.get(c, 0.0)
         mode = rng.choice(["rand", "zero", "at", "below", "above", "sublot", "tiny", "balanced"])
+        zero_px = q[c][1] == 0 or q[c][0] == 0
+        if zero_px:
+            # (a weight cannot be sized at a zero price; a number of contracts can)
+            mode = rng.choice(["zero", "balanced", "sublot", "contracts"]) if measure == "nr-contracts" else "zero"
         if mode == "balanced" and (measure != "nr-contracts" or h == 0):
-            mode = "rand"
+            mode = "rand" if not zero_px else "contracts"
         modes[c] = mode
-        if mode == "balanced":
+        if mode == "contracts":
+            w = h + rng.choice([-1, 1]) * rng.uniform(1.5, 9.0)
+        elif mode == "balanced":
             # the target is EXACTLY what is held: nothing to trade for this contract (while others may)
             w = h
         elif mode == "zero":
